@@ -107,6 +107,14 @@ var kinds = map[string]kindDef{
 		return pick(v, (*enctypes.E1)(nil), &enctypes.E1{Ea: 5, Eb: "e"}, &enctypes.E1{})
 	}},
 	"E2": {typ: reflect.TypeOf(enctypes.E2{}), emb: true, val: func(v string) any { return pick(v, enctypes.E2{}, enctypes.E2{Aa: "s", Ec: 9}, enctypes.E2{Ec: 9}) }},
+	"E3": {typ: reflect.TypeOf(enctypes.E3{}), emb: true, val: func(v string) any {
+		return pick(v, enctypes.E3{}, enctypes.E3{Ga: 5, Gb: 6, Gc: true, Gd: 2.5, Ge: 9}, enctypes.E3{Gb: 6, Gd: 2.5})
+	}},
+	// containers of structs whose pointer / slice / map members are populated differently from element to element
+	"map[string]M":  {typ: reflect.TypeOf(map[string]enctypes.M1(nil)), val: func(v string) any { return mapM(v) }},
+	"map[string]*M": {typ: reflect.TypeOf(map[string]*enctypes.M1(nil)), val: func(v string) any { return mapPM(v) }},
+	"[]M":           {typ: reflect.TypeOf([]enctypes.M1(nil)), val: func(v string) any { return sliceM(v) }},
+	"[]*M":          {typ: reflect.TypeOf([]*enctypes.M1(nil)), val: func(v string) any { return slicePM(v) }},
 	// named library types as field kinds
 	"T1":  {typ: reflect.TypeOf(enctypes.T{}), val: func(v string) any { return pick(v, enctypes.T{}, enctypes.T{X: 4, Name: "t"}, enctypes.T{X: 4}) }},
 	"T2":  {typ: reflect.TypeOf(enctypes2.T{}), val: func(v string) any { return pick(v, enctypes2.T{}, enctypes2.T{Y: "y", Flag: true}, enctypes2.T{Y: "y"}) }},
@@ -133,6 +141,58 @@ var kinds = map[string]kindDef{
 	"PJM":    {typ: reflect.TypeOf(enctypes.PJM{}), val: func(v string) any { return pick(v, enctypes.PJM{}, enctypes.PJM{N: 3}, enctypes.PJM{N: 3}) }},
 	"TM":     {typ: reflect.TypeOf(enctypes.TM{}), val: func(v string) any { return pick(v, enctypes.TM{}, enctypes.TM{N: 3}, enctypes.TM{N: 3}) }},
 	"MyInt":  {typ: reflect.TypeOf(enctypes.MyInt(0)), val: func(v string) any { return pick(v, enctypes.MyInt(0), enctypes.MyInt(7), enctypes.MyInt(7)) }},
+}
+
+// elements: full, bare (pointer / slice / map members absent), other full, bare again; every call builds fresh values
+func m1s(v string) []enctypes.M1 {
+	full := enctypes.M1{Mp: ip(1), Ms: []int{1}, Mm: map[string]int{"x": 1}, Mn: 1}
+	other := enctypes.M1{Mp: ip(3), Ms: []int{3, 4}, Mm: map[string]int{"y": 2}, Mn: 3}
+	if v == "e" {
+		return []enctypes.M1{full, {Mn: 2}}
+	}
+	return []enctypes.M1{full, {Mn: 2}, other, {Mn: 4}}
+}
+
+func mapM(v string) any {
+	if v == "z" {
+		return map[string]enctypes.M1(nil)
+	}
+	m := map[string]enctypes.M1{}
+	for i, x := range m1s(v) {
+		m[string(rune('a'+i))] = x
+	}
+	return m
+}
+
+func mapPM(v string) any {
+	if v == "z" {
+		return map[string]*enctypes.M1(nil)
+	}
+	m := map[string]*enctypes.M1{}
+	for i, x := range m1s(v) {
+		x := x
+		m[string(rune('a'+i))] = &x
+	}
+	return m
+}
+
+func sliceM(v string) any {
+	if v == "z" {
+		return []enctypes.M1(nil)
+	}
+	return m1s(v)
+}
+
+func slicePM(v string) any {
+	if v == "z" {
+		return []*enctypes.M1(nil)
+	}
+	var a []*enctypes.M1
+	for _, x := range m1s(v) {
+		x := x
+		a = append(a, &x)
+	}
+	return a
 }
 
 func pick(v string, z, n, e any) any {
